@@ -270,6 +270,7 @@ pub fn db_strategy(with_errors: bool) -> BoxedStrategy<DbSpec> {
                         empty_as_c,
                         epoch_errors: Vec::new(),
                         f_text: 0,
+                        legacy_filter_sets: Default::default(),
                     },
                     filter_exprs,
                     chunk: if chunk == 3 { 7 } else { 0 },
